@@ -39,13 +39,16 @@ def Op.key? : Op → Option Key
   | .read k => some k
   | .reopen => none
 
-/-- What a reader may see at a cut point of a history: the state after some prefix of the completed operations,
-optionally with the next operation's new key present at (0, 0). -/
-def PrefixState (ops : List Op) (r : Store) : Prop :=
+/-- What a reader may see at a cut point of a history that starts in state `s`: the state after some prefix of the
+completed operations, optionally with the next operation's new key present at (0, 0). -/
+def PrefixFrom (s : Store) (ops : List Op) (r : Store) : Prop :=
   ∃ j, j ≤ ops.length ∧
-    (r = run [] (ops.take j) ∨
-     ∃ k, (ops.drop j).head?.bind Op.key? = some k ∧ (run [] (ops.take j)).has k = false ∧
-          r = run [] (ops.take j) ++ [(k, 0, 0)])
+    (r = run s (ops.take j) ∨
+     ∃ k, (ops.drop j).head?.bind Op.key? = some k ∧ (run s (ops.take j)).has k = false ∧
+          r = run s (ops.take j) ++ [(k, 0, 0)])
+
+/-- … for the history of a fresh writer -/
+def PrefixState (ops : List Op) (r : Store) : Prop := PrefixFrom [] ops r
 
 /-- the (value, timestamp) pairs a history ever wrote for `k`, plus the initial zero pair -/
 def Written (ops : List Op) (k : Key) (v t : UInt64) : Prop :=
